@@ -64,10 +64,23 @@ TFailed(t)     == (Is("failed", t) /\ Lift(Fail(t))) \cdot Adv
 (* the invalid method: RegisterOne raises out of the build *)
 TFailedBad(t)  == (Is("failed", t) /\ pc[t] = "reg" /\ k[t] = BadM /\ Lift(RegisterOne(t))) \cdot Adv
 
-TNext ==
-  \E t \in Threads :
+TEvent(t) ==
     \/ TStart(t) \/ TLocked(t) \/ TNewMap(t) \/ TGenerated(t) \/ TRegistered(t) \/ TSwapped(t) \/ TDone(t)
     \/ TEndBuilt(t) \/ TEndWaited(t) \/ TEndDirect(t) \/ TFailed(t) \/ TFailedBad(t)
+
+(* Grain of atomicity: the generated entry point is put in place one source line before hook compile.swapped   *)
+(* is reached.  Under line-granular scheduling another thread can run in between and already finds it.  The    *)
+(* swap of the building thread b may therefore be taken silently, ahead of its logged event, when an event of  *)
+(* another thread is consumed - at most once per build (pc[b] leaves "reg"); the late "swapped" event of b is  *)
+(* then consumed without a step of Build.tla.                                                                  *)
+EarlySwap(b)    == pc[b] = "reg" /\ k[b] > NMeth /\ (Lift(EndReg(b)) \cdot Lift(Swap(b)))
+TSwappedLate(b) == Is("swapped", b) /\ pc[b] = "setcompiled" /\ entry = "gen" /\ Adv
+
+TNext ==
+  \E t \in Threads :
+    \/ TEvent(t)
+    \/ TSwappedLate(t)
+    \/ \E b \in Threads \ {t} : l <= Len(Tr) /\ Cur.t = t /\ (EarlySwap(b) \cdot TEvent(t))
 
 TInit == Init /\ i \in 1..Len(Cases) /\ l = 1
 TSpec == TInit /\ [][TNext]_tvars
